@@ -22,7 +22,7 @@
 (* name is shadowed.  The machine resolves the references one by one.      *)
 (***************************************************************************)
 EXTENDS TLC, Naturals, FiniteSets, Sequences, SequencesExt, Json, IOUtils
-CONSTANT DumpCases
+CONSTANTS DumpCases, PairShadows
 R == INSTANCE Req
 
 \* "trait-self-named-as_ref" / "concrete-named-as_ref": the entraited trait's method / the function with a concrete dependency is
@@ -50,6 +50,8 @@ Captured(r, S) == r.how \in {"bare", "thirdparty", "method"} /\ (r.name \in S \/
 \* variants: clean scope, one shadowed name, all names shadowed, generated trait named like a marker trait, no_std crate
 Variants == { [kind |-> "clean", shadows |-> {}, name |-> "T", dname |-> "DelegateN"] }
             \cup { [kind |-> "shadow", shadows |-> {n}, name |-> "T", dname |-> "DelegateN"] : n \in ShadowNames }
+            \* (thorough tier) every PAIR of names shadowed together: a capture that needs two local items to line up
+            \cup (IF PairShadows THEN { [kind |-> "shadow2", shadows |-> {a, b}, name |-> "T", dname |-> "DelegateN"] : a \in ShadowNames, b \in ShadowNames } ELSE {})
             \cup { [kind |-> "shadow-all", shadows |-> ShadowNames, name |-> "T", dname |-> "DelegateN"] }
             \cup { [kind |-> "marker-name", shadows |-> {}, name |-> n, dname |-> "DelegateN"] : n \in {"Send", "Sync"} }
             \* the user's DELEGATION trait (`delegate_by = <name>`, static dependency inversion) named like something the macro refers to:
